@@ -1228,11 +1228,20 @@ def _get_cached_arg_spec(fn: Callable[..., Any]) -> inspect.FullArgSpec:
   """Gets cached argspec for `fn`."""
   arg_spec = _ARG_SPEC_CACHE.get(fn)
   if arg_spec is None:
+    # Look through decorators, as `_might_have_parameter` does (the `__init__` a
+    # configurable class inherits from a configurable base class is Gin's own
+    # wrapper): otherwise positional arguments cannot be matched to names.
+    target = inspect.unwrap(fn)
     try:
-      arg_spec = inspect.getfullargspec(fn)
+      arg_spec = inspect.getfullargspec(target)
     except TypeError:
       # `fn` might be a callable object.
-      arg_spec = inspect.getfullargspec(fn.__call__)
+      arg_spec = inspect.getfullargspec(target.__call__)
+    # `getfullargspec` lists the bound `self`/`cls` of a bound method or of a
+    # callable object's `__call__`, which the caller does not pass.
+    if inspect.ismethod(target) or inspect.ismethod(
+        getattr(target, '__call__', None)):
+      arg_spec = arg_spec._replace(args=arg_spec.args[1:])
     _ARG_SPEC_CACHE[fn] = arg_spec
   return arg_spec
 
